@@ -27,6 +27,11 @@ DropT(t) ==
 Next == \E t \in Threads : Move(t) \/ DropT(t)
 Spec == Init /\ [][Next]_vars
 Done == \A t \in Threads : idx[t] > Len(prog[t]) /\ ~hs[t].open
+\* liveness of the model: with every thread scheduled fairly every program finishes and every handle is
+\* dropped (no step of one thread can disable another thread for ever; the code-level counterpart is the
+\* `nodeadlock` conjunct of Trace_Lin)
+FairSpec == Spec /\ \A t \in Threads : WF_vars(Move(t) \/ DropT(t))
+Terminates == <>Done
 
 \* C16
 Linearizable ==
